@@ -74,6 +74,10 @@ CLAIMS = {
          "TLA+ spec TxSort: BIP69 as a relation (ordered permutation of whole elements, other fields equal, ties free); MC_TxSort checks the relation is non-empty and idempotent over a key alphabet with ties; real Sort / InPlaceSort / IsSorted calls on all permutations of small element sets with ties and random transactions up to hundreds of elements, with deep snapshots of the original before/after and after mutating the copy, judged by TLC trace validation",
          "small-scope model checking of the relation plus TLC trace validation",
          "non-negative amounts"),
+ "C16": ("DESIGN.md §4 C16",
+         "TLA+ spec BlockCache: the Block wrapper as a cache state machine over object identities (slots, cached hash and bytes) with fresh values as facts; MC_BlockCache explores all call sequences of depth 5 on blocks of 0..3 transactions (identities distinct and stable) and generates every call sequence of bounded depth, which is replayed on real blocks from every constructor (message, bytes, bytes with trailing data, reader, message+bytes) plus random interleavings on large blocks; TLC trace validation checks values, identities, indices, out-of-range errors and transaction locations",
+         "model checking of the abstract cache (10^6 states) plus TLC trace validation of enumerated and random accessor histories",
+         "fresh facts from wire; pointer identity"),
 }
 
 NOT_YET = "check not built yet in this round; see DESIGN.md for the planned TLA+ model"
